@@ -1,6 +1,5 @@
 //! Group "engine": C03, C05, C10, C06, C07 (+ `smoke`/`warmup`, self-tests of rpkitest).
 mod smoke;
-mod probe;
 mod common;
 mod c03;
 mod c05;
@@ -11,7 +10,6 @@ mod c10;
 fn run(name: &str, ctx: &mut rvcore::Ctx) -> bool {
     match name {
         "smoke" => smoke::run_smoke(ctx),
-        "probe" => probe::run_probe(ctx),
         "warmup" => smoke::run_warmup(ctx),
         "c03" => c03::run_c03(ctx),
         "c05" => c05::run_c05(ctx),
